@@ -397,3 +397,81 @@ fn c15_thread_counts_sorted_dedup() {
     std::mem::forget(shared);
     std::mem::forget(painter);
 }
+
+// ---- C17 / C13: the driver runs each kept argument name with the argument it names
+
+struct AGhost {
+    magic: u64,
+    n: usize,
+    got: [u8; 3],
+    vals: [u8; 3],
+}
+static mut AG: AGhost = AGhost { magic: 0xD1FA_57A7_1C00_1702, n: 0, got: [0; 3], vals: [0; 3] };
+static DRV_ARGS: crate::benchmark::BenchArgs = crate::benchmark::BenchArgs::new();
+
+fn arg_label(x: &u8) -> String {
+    let mut s = String::new();
+    s.push((b'a' + (*x & 15)) as char);
+    s
+}
+fn drv_args_runner() -> crate::benchmark::BenchArgsRunner {
+    DRV_ARGS.runner(
+        || unsafe { AG.vals },
+        arg_label,
+        |_b: Bencher, x: &u8| unsafe {
+            if AG.n < 3 {
+                AG.got[AG.n] = *x;
+            }
+            AG.n += 1;
+        },
+    )
+}
+
+// @cell props=C17,C13 tier=quick kind=core timeout=2400 mem=24 cls=K ignore_re=write_bytes::<\{closure@.*\|memset.destination.region.writeable
+// @desc run_bench_entry (test mode) on an args benchmark with 3 symbolic argument values after the tree kept two
+// @desc of the three names in an arbitrary order (symbolic i != j: any filter + sort outcome): the function runs
+// @desc exactly twice, with the argument named by the first kept label, then with the one named by the second
+#[kani::proof]
+#[kani::unwind(5)]
+#[kani::stub(std::io::_print, print_stub)]
+#[kani::stub(std::io::_eprint, print_stub)]
+#[kani::stub(alloc::fmt::format, format_stub)]
+#[kani::stub(crate::tree_painter::TreePainter::start_leaf, p_start_leaf)]
+#[kani::stub(crate::tree_painter::TreePainter::finish_empty_leaf, p_finish_empty)]
+#[kani::stub(crate::tree_painter::TreePainter::ignore_leaf, p_ignore_leaf)]
+#[kani::stub(crate::tree_painter::TreePainter::start_parent, p_start_parent)]
+#[kani::stub(crate::tree_painter::TreePainter::finish_parent, p_finish_parent)]
+#[kani::stub(crate::tree_painter::TreePainter::finish_leaf, p_finish_leaf)]
+#[kani::stub(std::hash::RandomState::new, rs_stub)]
+fn c17_driver_runs_kept_args() {
+    let v: [u8; 3] = [kani::any(), kani::any(), kani::any()];
+    unsafe { AG.vals = v; }
+    let entry = BenchEntry {
+        meta: EntryMeta { display_name: "b", raw_name: "b", module_path: "m", location: LOC, bench_options: None },
+        bench: BenchEntryRunner::Args(drv_args_runner),
+    };
+    let names: &'static [&'static str] = AnyBenchEntry::Bench(&entry).arg_names().unwrap();
+    assert_eq!(names.len(), 3);
+    let i: usize = kani::any();
+    let j: usize = kani::any();
+    kani::assume(i < 3 && j < 3 && i != j);
+    let kept: [&&str; 2] = [&names[i], &names[j]];
+    let d = Divan::default();
+    let shared = SharedContext { action: Action::Test, timer: Timer::Os, thread_pool: ThreadPool::new() };
+    let painter = RefCell::new(TreePainter::new(0, [0; TreeColumn::COUNT]));
+    d.run_bench_entry(Action::Test, AnyBenchEntry::Bench(&entry), Some(&kept[..]), &shared, None, &painter, true);
+    unsafe {
+        assert_eq!(AG.n, 2);
+        assert_eq!(AG.got[0], v[i]);
+        assert_eq!(AG.got[1], v[j]);
+        assert_eq!(AG.magic, 0xD1FA_57A7_1C00_1702);
+    }
+    // the labels are the renderings of those very arguments
+    assert_eq!(kept[0].as_bytes()[0], b'a' + (v[i] & 15));
+    kani::cover!(i == 2 && j == 0 && v[0] != v[2]);
+    kani::cover!(i == 1 && j == 2);
+    std::mem::forget(d);
+    std::mem::forget(entry);
+    std::mem::forget(shared);
+    std::mem::forget(painter);
+}
